@@ -489,12 +489,15 @@ pub fn layouts(seed: u64, count: u64, outdir: &str, big: bool, ops_path: Option<
         let mut r = rng.fork();
         let max_entries = if big { 40 } else if r.chance(1, 3) { 26 } else { 14 };
         let tree = gen_tree(&mut r, max_entries, big);
-        let cfg = LayoutCfg { v4: r.chance(1, 2), wrap_to_zero: r.chance(1, 3), free_gaps: r.chance(2, 3), extra_dir_sector: r.chance(1, 4) };
+        let cfg = LayoutCfg { v4: r.chance(1, 2), wrap_to_zero: r.chance(1, 3), free_gaps: r.chance(2, 3), extra_dir_sector: r.chance(1, 4), spare_fat: r.chance(1, 4) };
         let img = build(&tree, &cfg, &mut r);
         let path = format!("{}/L{}.cfb", outdir, k);
         std::fs::write(&path, &img).unwrap();
         out.distinct.insert(fnv(&img));
         *out.hist.entry(format!("layout:v{}{}{}", if cfg.v4 { 4 } else { 3 }, if cfg.wrap_to_zero { "+wrap" } else { "" }, if cfg.free_gaps { "+gaps" } else { "" })).or_insert(0) += 1;
+        if cfg.spare_fat && !cfg.wrap_to_zero {
+            *out.hist.entry("layout:spare-fat-sector".to_string()).or_insert(0) += 1;
+        }
         let mut model = RefModel::new();
         model.apply("create 3");
         let mut lines = Vec::new();
